@@ -1,2 +1,177 @@
-(* C25 — placeholder while the harness is brought up *)
-From WK Require Import Base.Base Model.WkEnc.
+(* C25 — End-to-end payload encryption is correct and tamper-evident.
+   Only statements, each closed by [exact] of a lemma from Proof/WkEnc*.v.
+
+   The AES block cipher, MD5 and X25519 are universally quantified; what is
+   assumed of them is exactly (Proof/WkEnc.v):
+     aes_ok E D  :=  (forall k b, is_block b -> D k (E k b) = b)
+                  /\ (forall k b, is_block b -> is_block (E k b))
+                     where is_block b := length b = 16 /\ all bytes < 256
+     md5_ok H    :=  forall m, length (H m) = 16 /\ all bytes of H m < 256
+     dh_ok X     :=  (forall a b pa pb, X a base = Some pa -> X b base = Some pb -> X a pb = X b pa)
+                  /\ (forall a p r, X a p = Some r -> length r = 32 /\ all bytes of r < 256)
+   Nothing is assumed about collision resistance: tamper evidence concludes
+   "rejected, or here is an explicit collision of H". *)
+From WK Require Import Base.Base Base.Bytes Gen.Consts_C25 Model.WkEnc.
+From WK Require Import Proof.WkEnc_b64 Proof.WkEnc_blocks Proof.WkEnc Proof.WkEnc_monitor.
+Open Scope N_scope.
+
+(* ---- concrete layers ------------------------------------------------------------------- *)
+
+(* the padding size is in 1..16 and completes the last block, for every payload length *)
+Theorem c25_pad_range : forall n,
+  let k := pkcs7PaddingSize n AesBlockSize in 1 <= k <= 16 /\ (n + k) mod 16 = 0.
+Proof. exact pkcs7PaddingSize_spec. Qed.
+Print Assumptions c25_pad_range.
+
+(* unpadding inverts padding for every payload (empty and block-multiple lengths included) *)
+Theorem c25_unpad_pad : forall p, pkcs7UnpadView (pkcs7_pad p) AesBlockSize = Some p.
+Proof. exact pkcs7_unpad_pad. Qed.
+Print Assumptions c25_unpad_pad.
+
+(* base64 (alphabet regenerated from encoding/base64.StdEncoding): decode inverts encode *)
+Theorem c25_b64_roundtrip : forall d, all_bytes d = true -> b64_decode (b64_encode d) = Some d.
+Proof. exact b64_decode_encode. Qed.
+Print Assumptions c25_b64_roundtrip.
+
+(* CBC: decryptCBCBlocks inverts encryptCBCBlocks on whole blocks, for every key and IV *)
+Theorem c25_cbc_roundtrip : forall aesE aesD, aes_ok aesE aesD ->
+  forall key blocks prev, is_block prev -> Forall is_block blocks ->
+  cbc_dec aesD key prev (cbc_enc aesE key prev blocks) = blocks.
+Proof. exact cbc_dec_enc. Qed.
+Print Assumptions c25_cbc_roundtrip.
+
+(* ---- decrypt (encrypt p) = p ------------------------------------------------------------------ *)
+
+Theorem c25_decrypt_encrypt : forall aesE aesD, aes_ok aesE aesD ->
+  forall keys p e, all_bytes (AESIV keys) = true -> all_bytes p = true ->
+  EncryptPayload aesE p keys = Ok e -> DecryptPayload aesD e keys = Ok p.
+Proof. exact decrypt_encrypt. Qed.
+Print Assumptions c25_decrypt_encrypt.
+
+(* with at least 16 bytes of key and of IV, encryption never fails *)
+Theorem c25_encrypt_total : forall aesE keys p, usable keys -> exists e, EncryptPayload aesE p keys = Ok e.
+Proof. exact encrypt_total. Qed.
+Print Assumptions c25_encrypt_total.
+
+(* ---- both sides derive the same keys ---------------------------------------------------------- *)
+
+(* a client that sent its genuine public key and is handed the server's public key and salt
+   derives exactly the session keys the server derived *)
+Theorem c25_same_keys : forall md5 x25519, dh_ok x25519 ->
+  forall cpriv cpub rnd skeys spub_enc,
+  x25519 cpriv X25519Basepoint = Some cpub ->
+  NegotiateServerSession md5 x25519 (EncodePublicKey cpub) rnd = Ok (skeys, spub_enc) ->
+  DeriveClientSession md5 x25519 cpriv spub_enc (AESIV skeys) = Ok skeys.
+Proof. exact same_keys. Qed.
+Print Assumptions c25_same_keys.
+
+(* and those keys have the sizes NewSessionCrypto needs *)
+Theorem c25_negotiated_usable : forall md5 x25519, md5_ok md5 ->
+  forall ckey rnd skeys spub_enc,
+  NegotiateServerSession md5 x25519 ckey rnd = Ok (skeys, spub_enc) ->
+  length (AESKey skeys) = 16%nat /\ length (AESIV skeys) = iv_size.
+Proof. exact negotiated_usable. Qed.
+Print Assumptions c25_negotiated_usable.
+
+(* ---- tamper evidence of SEND ------------------------------------------------------------------- *)
+
+(* the packet carrying the key computed for it validates *)
+Theorem c25_validate_honest : forall aesE md5 keys p k,
+  SendMsgKey aesE md5 p keys = Ok k -> sp_msgkey p = k -> ValidateSendPacket aesE md5 p keys = 0.
+Proof. exact validate_honest. Qed.
+Print Assumptions c25_validate_honest.
+
+(* altered message key, same covered bytes: rejected *)
+Theorem c25_tamper_key : forall aesE md5 keys p p' k,
+  SendMsgKey aesE md5 p keys = Ok k ->
+  send_sign_bytes p' = send_sign_bytes p -> sp_msgkey p' <> k ->
+  ValidateSendPacket aesE md5 p' keys = E_MsgKeyMismatch.
+Proof. exact tamper_key. Qed.
+Print Assumptions c25_tamper_key.
+
+(* altered payload, every other field (message key included) kept: rejected, or an MD5 collision *)
+Theorem c25_tamper_payload : forall aesE aesD md5, aes_ok aesE aesD -> md5_ok md5 ->
+  forall keys p p' k,
+  all_bytes (AESIV keys) = true -> all_bytes (send_sign_bytes p) = true -> all_bytes (send_sign_bytes p') = true ->
+  SendMsgKey aesE md5 p keys = Ok k -> sp_msgkey p' = k ->
+  sp_seq p' = sp_seq p -> sp_msgno p' = sp_msgno p -> sp_chid p' = sp_chid p -> sp_chtype p' = sp_chtype p ->
+  sp_payload p' <> sp_payload p ->
+  ValidateSendPacket aesE md5 p' keys = E_MsgKeyMismatch \/ md5_collision md5.
+Proof. exact tamper_payload. Qed.
+Print Assumptions c25_tamper_payload.
+
+(* altered covered header fields / payload in any combination that changes the covered bytes *)
+Theorem c25_tamper_covered : forall aesE aesD md5, aes_ok aesE aesD -> md5_ok md5 ->
+  forall keys p p' k,
+  all_bytes (AESIV keys) = true -> all_bytes (send_sign_bytes p) = true -> all_bytes (send_sign_bytes p') = true ->
+  SendMsgKey aesE md5 p keys = Ok k -> sp_msgkey p' = k ->
+  send_sign_bytes p' <> send_sign_bytes p ->
+  ValidateSendPacket aesE md5 p' keys = E_MsgKeyMismatch \/ md5_collision md5.
+Proof. exact tamper_covered. Qed.
+Print Assumptions c25_tamper_covered.
+
+(* the gateway adapter, reading a session that holds the client's keys (cached SessionCrypto or
+   key/IV values), validates before it decrypts: it returns the decrypted payload exactly when
+   ValidateSendPacket accepts *)
+Theorem c25_adapter_validates_first : forall aesE aesD md5 keys sc s p,
+  NewSessionCrypto keys = Ok sc -> sess_consistent keys s = true ->
+  decryptSendPacketForSession aesE aesD md5 s p =
+  match ValidateSendPacket aesE md5 p keys with
+  | 0 => DecryptPayload aesD (sp_payload p) keys
+  | e => Err e
+  end.
+Proof. exact adapter_send_eq. Qed.
+Print Assumptions c25_adapter_validates_first.
+
+(* ---- the monitor evaluated on implementation traces ---------------------------------------------- *)
+
+(* every trace the model can produce on byte-string inputs satisfies the monitor, or an MD5
+   collision is exhibited; so "model = implementation on this case" + the theorems above give
+   the monitor on the implementation's trace *)
+Theorem c25_model_satisfies_monitor : forall aesE aesD md5 x25519,
+  aes_ok aesE aesD -> md5_ok md5 -> dh_ok x25519 ->
+  forall ops tE tD tM tDH, Forall wf_op ops ->
+  C25_monitor (C25Case (map (model_op aesE aesD md5 x25519) ops) tE tD tM tDH) = 0 \/ md5_collision md5.
+Proof. exact model_satisfies_monitor. Qed.
+Print Assumptions c25_model_satisfies_monitor.
+
+(* the correspondence predicate is not vacuous in the other direction: observations produced by
+   the model with the case's tables as primitives are never a mismatch *)
+Theorem c25_model_no_mismatch : forall ops tE tD tM tDH,
+  let aesE := lookup_block tE in
+  let aesD := lookup_block tD in
+  let md5 := fun m => lookup1 tM m [] in
+  let dh := fun a p => lookup2 tDH a p None in
+  C25_mismatch (C25Case (map (model_op aesE aesD md5 dh) ops) tE tD tM tDH) = false.
+Proof. exact model_no_mismatch. Qed.
+Print Assumptions c25_model_no_mismatch.
+
+(* ---- non-vacuity ---------------------------------------------------------------------------------- *)
+
+(* the assumptions are satisfiable (toy primitives: block reversal, constant digest, constant
+   shared secret) *)
+Example c25_assumptions_satisfiable :
+  aes_ok (fun _ b => rev b) (fun _ b => rev b)
+  /\ md5_ok (fun _ => repeat 7 16)
+  /\ dh_ok (fun _ _ => Some (repeat 9 32)).
+Proof. exact toy_primitives_ok. Qed.
+
+(* a concrete run with the toy cipher: 17-byte payload, two blocks, round trip *)
+Example c25_example_roundtrip :
+  let keys := Keys (repeat 1 16) (repeat 2 16) in
+  let p := repeat 65 17 in
+  exists e, EncryptPayload (fun _ b => rev b) p keys = Ok e
+            /\ length e = 44%nat
+            /\ DecryptPayload (fun _ b => rev b) e keys = Ok p.
+Proof. eexists. vm_compute. repeat split; reflexivity. Qed.
+
+(* observation recorded in DESIGN §7 (not part of the property): the covered bytes are a plain
+   concatenation, so they do not determine the covered FIELDS — ClientSeq 1 / ClientMsgNo "2x" and
+   ClientSeq 12 / ClientMsgNo "x" (or a character moved between ClientMsgNo and ChannelID) have the
+   same sign bytes and therefore the same message key *)
+Example c25_sign_bytes_not_injective :
+  let p1 := SendPkt [] 1 [50; 120] [117; 49] 1 [65] in
+  let p2 := SendPkt [] 12 [120] [117; 49] 1 [65] in
+  let p3 := SendPkt [] 1 [50] [120; 117; 49] 1 [65] in
+  p1 <> p2 /\ p1 <> p3 /\ send_sign_bytes p1 = send_sign_bytes p2 /\ send_sign_bytes p1 = send_sign_bytes p3.
+Proof. repeat split; try discriminate; vm_compute; reflexivity. Qed.
